@@ -29,6 +29,33 @@ type Harness struct {
 	Timeout time.Duration
 }
 
+// trustedCases lists the vTrusted("...") markers of a contract harness: cases whose
+// postconditions are used at call sites without having been verified.
+func (h *Harness) trustedCases() []string {
+	var out []string
+	if h.Fn == nil {
+		return nil
+	}
+	for _, b := range h.Fn.Blocks {
+		for _, in := range b.Instrs {
+			c, ok := in.(*ssa.Call)
+			if !ok {
+				continue
+			}
+			f := c.Call.StaticCallee()
+			if f == nil || f.Name() != "vTrusted" || len(c.Call.Args) != 1 {
+				continue
+			}
+			msg := "unverified case"
+			if k, ok := c.Call.Args[0].(*ssa.Const); ok && k.Value != nil {
+				msg = strings.Trim(k.Value.ExactString(), "\"")
+			}
+			out = append(out, msg)
+		}
+	}
+	return out
+}
+
 type World struct {
 	prog      *ssa.Program
 	pkgs      []*ssa.Package
